@@ -1049,6 +1049,14 @@ class Merge3Merger:
                     trans_id = self.tt.trans_id_tree_path(paths3[2])
                 elif paths3[1]:
                     trans_id = self.tt.trans_id_tree_path(paths3[1])
+                    if self.tt.tree_kind(trans_id) not in (None, "directory"):
+                        # Not versioned in THIS, but THIS has an unversioned
+                        # file at that path. Give the entry its own trans_id:
+                        # sharing the one of the existing file would replace
+                        # that file's contents silently. Two entries with the
+                        # same name are reported as a duplicate and the
+                        # existing file is moved aside.
+                        trans_id = self.tt.assign_id()
                 else:
                     trans_id = self.tt.assign_id()
                 # Try merging each entry
